@@ -269,7 +269,7 @@ where
             cases: per as u32,
             rng_seed: RngSeed::Fixed(env.sub_seed(name, shard)),
             failure_persistence: None,
-            max_shrink_iters: 4000,
+            max_shrink_iters: 1500,
             ..Config::default()
         };
         let mut runner = TestRunner::new(cfg);
